@@ -3,8 +3,8 @@
    comparison; no Extract Constant.  Compiled by the runner from the oracle build directory
    (the .ml files land in the current directory). *)
 From Coq Require Import ExtrOcamlBasic.
-From BM Require Import Extract.Driver Extract.DriverAlloc.
+From BM Require Import Extract.Driver Extract.DriverAlloc Extract.DriverTables.
 Extraction Language OCaml.
 Extraction "Model.ml" Driver.model Driver.monitor_c01 Driver.monitor_c02 Driver.monitor_c03 Driver.monitor_c07
   Driver.monitor_c11 Driver.monitor_c14 Driver.monitor_c14_verdict Driver.xobs_eqb Driver.mkCase
-  DriverAlloc.amodel DriverAlloc.amonitors DriverAlloc.zlist_eqb DriverAlloc.mkAcase.
+  DriverTables.xmodel DriverTables.xmonitors DriverAlloc.zlist_eqb DriverAlloc.mkAcase.
